@@ -36,7 +36,6 @@ func lenClass(n int) string {
 }
 
 func c06eval(r *vx.R, c c06case) {
-	r.Eval(1)
 	key := keyByName(c.Key)
 	nonce := c.nonce()
 	pt := fillLen("pt", c.PtLen)
@@ -46,6 +45,7 @@ func c06eval(r *vx.R, c c06case) {
 		r.Add("unsupported_on_this_path", 1)
 		return
 	}
+	r.Eval(1)
 	want := gcmref.Seal(refCipher(key), nonce, pt, aad, c.Tag)
 	keepN, keepP, keepA := append([]byte{}, nonce...), append([]byte{}, pt...), append([]byte{}, aad...)
 	var got []byte
